@@ -31,8 +31,8 @@ Theorem C24_relaxation_table : forall A (K : CRing A),
   mget K (unit_mat K dim 0 1 (nm_c_relax nm)) (emu_index Lg) (emu_index Lr) = nm_c_relax nm.
 Proof. exact relaxation_table. Qed.
 
-(* Dephasing: raises when the hyperfine rate is non-zero, else the single operator
-   c(|g><g| - |r><r|) (c at [0][0], -c at [1][1], zero elsewhere), dims 2 and 3. *)
+(* Dephasing: raises when the hyperfine rate is non-zero, else the single diagonal operator with -c on
+   level 1 (r, resp. d for XY) and +c on every other level (g, and x when present), dims 2 and 3. *)
 Theorem C24_dephasing_table : forall A (K : CRing A),
   forall rb (nm : @noise_model A) ising dim, dim_ok dim ->
   str_in "dephasing" (nm_types nm) = true ->
@@ -40,32 +40,33 @@ Theorem C24_dephasing_table : forall A (K : CRing A),
     if nm_hyperfine_nonzero nm then Err E_NOTIMPL else Ok [dephasing_emu A K dim (nm_c_deph nm)].
 Proof. exact dephasing_table. Qed.
 
-(* Qubit dephasing is the process Pulser defines (2c|r><r|, resp. 2c|d><d| for XY, 2c = sqrt(2 rate)):
-   the emulator operator is c*Id minus that operator in emulator order, and for real c both have the
-   same Lindblad dissipator on every 2x2 rho. *)
-Theorem C24_dephasing_qubit_same_process : forall A (K : CRing A), CRing_ok K ->
-  forall (nm : @noise_model A) ising,
-  [dephasing_emu A K 2 (nm_c_deph nm)] =
-    map (fun P => msub K 2 (mscale K 2 (nm_c_deph nm) (mid K 2)) (to_emu_basis K ising 2 P))
-        (pulser_ops K "dephasing" nm ising 2) /\
-  forall rho, rconj K (nm_c_deph nm) = nm_c_deph nm -> has_shape 2 rho = true ->
-    dissip2_sum K 2 [dephasing_emu A K 2 (nm_c_deph nm)] rho =
-    dissip2_sum K 2 (map (to_emu_basis K ising 2) (pulser_ops K "dephasing" nm ising 2)) rho.
+(* Dephasing is the process Pulser defines (2c|r><r|, resp. 2c|d><d| for XY, 2c = sqrt(2 rate)), for qubits
+   AND with the leakage level: the emulator operator is c*Id minus that operator in emulator order, and for
+   real c both have the same Lindblad dissipator on every dim x dim rho (dim 2 and 3, ising and XY). *)
+Theorem C24_dephasing_same_process : forall A (K : CRing A), CRing_ok K ->
+  forall (nm : @noise_model A) ising dim, dim_ok dim ->
+  [dephasing_emu A K dim (nm_c_deph nm)] =
+    map (fun P => msub K dim (mscale K dim (nm_c_deph nm) (mid K dim)) (to_emu_basis K ising dim P))
+        (pulser_ops K "dephasing" nm ising dim) /\
+  forall rho, rconj K (nm_c_deph nm) = nm_c_deph nm -> has_shape dim rho = true ->
+    dissip2_sum K dim [dephasing_emu A K dim (nm_c_deph nm)] rho =
+    dissip2_sum K dim (map (to_emu_basis K ising dim) (pulser_ops K "dephasing" nm ising dim)) rho.
 Proof.
-  exact (fun A K H nm ising => conj (dephasing_qubit_shift A K H nm ising)
-           (fun rho => dephasing_qubit_same_dissipator A K H nm ising rho)).
+  exact (fun A K H nm ising dim Hd => conj (dephasing_shift A K H nm ising dim Hd)
+           (fun rho Hc Hs => dephasing_same_dissipator A K H nm ising dim rho Hd Hc Hs)).
 Qed.
 
-(* REFUTED for the leakage level (dim 3): with Pulser's definition the coherence <g|rho|x> is not
-   damped at all, the emulator's operator damps it.  Witness rho = |g><x|, c = 1. *)
-Theorem C24_dephasing_qutrit_refuted :
-  exists rho : @mat Zi,
-    has_shape 3 rho = true /\
-    dissip2_sum zi_ring 3 (map (to_emu_basis zi_ring true 3) (pulser_ops zi_ring "dephasing" witness_deph true 3)) rho
-      = zeros zi_ring 3 /\
-    (exists L, get_lindblad_operators zi_ring RebaseFlipBlock "dephasing" witness_deph true 3 = Ok [L] /\
-               dissip2_sum zi_ring 3 [L] rho <> zeros zi_ring 3).
-Proof. exact dephasing_qutrit_differs. Qed.
+(* Regression of the fixed finding dephasing-qutrit: on rho = |g><x| Pulser's dissipator vanishes, the
+   FORMER operator (0 on x) did not, the current one does. *)
+Theorem C24_dephasing_qutrit_regression :
+  let rho := unit_mat zi_ring 3 0 2 (1,0)%Z in
+  let old_op := mset zi_ring 3 (mset zi_ring 3 (zeros zi_ring 3) 0 0 (1,0)%Z) 1 1 (-1,0)%Z in
+  dissip2_sum zi_ring 3 (map (to_emu_basis zi_ring true 3) (pulser_ops zi_ring "dephasing" witness_deph true 3)) rho
+    = zeros zi_ring 3 /\
+  dissip2_sum zi_ring 3 [old_op] rho <> zeros zi_ring 3 /\
+  (exists L, get_lindblad_operators zi_ring RebaseFlipBlock "dephasing" witness_deph true 3 = Ok [L] /\
+             dissip2_sum zi_ring 3 [L] rho = zeros zi_ring 3).
+Proof. exact dephasing_qutrit_regression. Qed.
 
 (* Depolarizing: the three operators c{sx, sy, sz} on the first two levels (dims 2, 3); each has the
    same dissipator as Pulser's corresponding operator in emulator order (they differ at most by a sign). *)
